@@ -260,9 +260,13 @@ def run_interleaved(conns, n, choose, max_steps=40, long=False):
                     if not fut.done():
                         fut.set_result(None)
                 else:
-                    kind, data, fut = c["stdout"].pending.pop(k)
+                    so = c["stdout"]
+                    kind, data, fut = so.pending.pop(k)
                     if kind == "write":
-                        c["stdout"].out += data
+                        so.unflushed += data
+                    else:
+                        so.out += so.unflushed
+                        so.unflushed = ""
                     if not fut.done():
                         fut.set_result(None)
             if steps > 2000:
